@@ -484,6 +484,28 @@ def r18_12(ctx):
             if isinstance(a, ast.Assign) and any(isinstance(x, ast.BinOp) and isinstance(x.op, (ast.Mod, ast.Add)) and
                                                  any(k in src(x) for k in ('ndim', 'len(')) for x in ast.walk(a.value)):
                 normalised = True
+        # the axes come from a helper (axis = helper(..., axis)): the helper is where they are normalised
+        for a in ast.walk(f.node):
+            if not normalised and isinstance(a, ast.Assign) and any(isinstance(t_, ast.Name) and t_.id == 'axis' for t_ in a.targets) \
+                    and isinstance(a.value, ast.Call):
+                callee = None
+                nm = call_name(a.value) or ''
+                for q in (nm, T + '.' + nm, T + '.' + cname + '.' + nm.split('.')[-1]):
+                    callee = callee or ctx.prog.maybe_func(q)
+                if callee is None:
+                    ctx.undecided('R18.12', f.qual, src(a)[:80], a, 'axes prepared by a call that is not resolved')
+                    normalised = None
+                    break
+                ct = src(callee.node).replace(' ', '')
+                dims = {t_.id for a2 in ast.walk(callee.node) if isinstance(a2, ast.Assign) and any(k in src(a2.value) for k in ('ndim', 'len('))
+                        for t_ in a2.targets if isinstance(t_, ast.Name)}
+                if 'normalize_axis' in ct or any(isinstance(x, ast.BinOp) and isinstance(x.op, (ast.Mod, ast.Add)) and
+                                                (any(k in src(x) for k in ('ndim', 'len(')) or
+                                                 any(isinstance(y, ast.Name) and y.id in dims for y in ast.walk(x)))
+                                                for x in ast.walk(callee.node)):
+                    normalised = True
+        if normalised is None:
+            continue
         sub_names = {x.id for x in ast.walk(diff[0].right) if isinstance(x, ast.Name)}
         if not normalised and sub_names != {'set', 'axis'}:
             ctx.undecided('R18.12', f.qual, src(diff[0]), diff[0], 'the subtracted axes are not the parameter itself')
